@@ -389,8 +389,109 @@ class Rerun(Part):
         return out
 
 
+class OpPoint(Part):
+    """
+    "... of the current operating point": eigenvalue analysis called after the system has moved - a simulation with a
+    disturbance, continued to several end times, with lazy and with honest Jacobian updates.  After EIG.run the
+    harness refreshes the Jacobians at the point the System is at (System.j_update) and repeats the full oracle
+    against those matrices.
+    """
+    name = 'oppoint'
+    chunk = 1
+    timeout = 900.0
+    nproc = 8
+
+    def __init__(self, tier='quick'):
+        self.tier = tier
+
+    CASES = ['kundur/kundur_full.xlsx', 'ieee14/ieee14_fault.xlsx', 'kundur/kundur_exdc2_zero_tb.xlsx']
+
+    def describe(self, tier):
+        return (f'{self.CASES if tier != "quick" else self.CASES[:2]}: histories TDS.run(tf) [-> TDS.run(tf2)] -> EIG.run for tf in (0.5, 2.0), '
+                f'tf2 = tf + 1, a line trip at 0.2 s, honest in (0, 1), both integration methods; the reported modes against the pencil '
+                f'of the Jacobians refreshed at the point reached')
+
+    def cases(self, tier):
+        out = []
+        for c in (self.CASES if tier != 'quick' else self.CASES[:2]):
+            for tf in (0.5, 2.0):
+                for honest in (0, 1):
+                    for method in ('trapezoid', 'backeuler'):
+                        for resume in (0, 1):
+                            if tier == 'quick' and (method == 'backeuler' and (honest or resume)):
+                                continue
+                            out.append(dict(case=c, tf=tf, honest=honest, method=method, resume=resume))
+        return out
+
+    def execute(self, case):
+        from vmc import systems
+        out = Outcome()
+        ss = systems.load_case(case['case'], setup=False)
+        for m in ('Toggle', 'Fault', 'Alter'):
+            mdl = getattr(ss, m, None)
+            if mdl is not None and mdl.n:
+                mdl.u.v[:] = [0] * mdl.n
+        ss.add('Toggle', dict(idx='TOP', model='Line', dev=ss.Line.idx.v[min(7, ss.Line.n - 1)], t=0.2))
+        ss.setup()
+        systems.quiet_tds(ss)
+        try:
+            if not ss.PFlow.run():
+                out.obs = dict(skip='power flow failed')
+                return out
+            c = ss.TDS.config
+            c.honest, c.criteria = case['honest'], 0
+            c.method = case['method']
+            ss.TDS.set_method(case['method'])
+            c.tf = case['tf']
+            ok = ss.TDS.run(no_summary=True)
+            if ok and case['resume']:
+                c.tf = case['tf'] + 1.0
+                ok = ss.TDS.run(no_summary=True)
+            if not ok:
+                out.obs = dict(skip='simulation failed')
+                return out
+            x_at, y_at = ss.dae.x.copy(), ss.dae.y.copy()
+            ok = ss.EIG.run()
+            if not ok:
+                out.bad('eig_run_failed:oppoint', 'EIG.run returned False after a successful simulation')
+            if not (np.array_equal(ss.dae.x, x_at) and np.array_equal(ss.dae.y, y_at)):
+                out.bad('eig_moved_the_operating_point', 'EIG.run changed dae.x / dae.y')
+            mu = np.array(ss.EIG.mu).ravel().copy()
+            # reference: Jacobians refreshed at the point the System is at
+            dae = ss.dae
+            ss.TDS.fg_update(ss.exist.pflow_tds)
+            ss.j_update(models=ss.exist.pflow_tds)
+            fx, fy, gx, gy = (matrix_to_np(M) for M in (dae.fx, dae.fy, dae.gx, dae.gy))
+            T = np.array(dae.Tf, dtype=float)
+            if np.linalg.cond(gy) > 1e13:
+                out.obs = dict(skip='algebraic block singular at the point reached')
+                return out
+            ref = ref_pencil(fx, fy, gx, gy, T)
+            ref = ref[np.isfinite(ref)]
+            if len(ref) != len(mu):
+                out.bad('mode_count_wrong:oppoint', f'{len(mu)} modes reported, the pencil at the point reached has {len(ref)} finite ones')
+            else:
+                # greedy one-to-one matching, distances relative to the magnitude
+                rest = list(ref)
+                worst = 0.0
+                for m in sorted(mu, key=lambda z: -abs(z)):
+                    j = int(np.argmin([abs(m - r) for r in rest]))
+                    worst = max(worst, abs(m - rest[j]) / max(1.0, abs(m)))
+                    rest.pop(j)
+                if worst > 1e-3:
+                    out.bad('modes_not_of_the_current_operating_point', f'after TDS.run to t = {float(dae.t)!r} (honest = {case["honest"]}): '
+                            f'reported eigenvalues differ from those of the Jacobians refreshed at this point by {worst:.3e} (relative)')
+                out.obs = dict(t=float(dae.t), n=len(mu), worst=float(f'{worst:.2e}'))
+        except Exception as e:
+            import traceback
+            tb = traceback.extract_tb(e.__traceback__)
+            out.bad(f'eig_raises:{type(e).__name__}@{tb[-1].name if tb else "?"}:oppoint', f'{type(e).__name__}: {e}')
+        out.transitions = 3
+        return out
+
+
 def parts(tier):
-    return [Seam(tier), Real(tier), Rerun(tier)]
+    return [Seam(tier), Real(tier), Rerun(tier), OpPoint(tier)]
 
 
 def run(run, only=None):
